@@ -627,6 +627,20 @@ def _check_read_all(run, world, mod, Q, fn, cfg, ys, sel):
                         unparse(x.slice) == lv for x in stores) and \
                         cnt in big:
                     lst, indexed = nm, True
+    if lst is None and any(
+            isinstance(x, ast.Call) and isinstance(x.func, ast.Attribute) and
+            x.func.attr == "append" and x.args and not any(
+                isinstance(y, ast.Attribute) and y.attr in (
+                    "as_integer", "value") for y in ast.walk(x.args[0]))
+            for x in ast.walk(loop.ast)):
+        # the read loop only collects the answers (frames / None) and the
+        # image is built from them afterwards: which entries are bytes and
+        # which placeholders is then decided away from the checks on the
+        # answer, which the snapshot rules do not follow
+        raise AnalysisError(
+            "%s collects the answers of its read loop and builds the bank "
+            "image from them afterwards; the snapshot rules read an image "
+            "that is filled where the answer is checked" % Q)
     run.ob("R-MEMR-SNAP", Q + "#list-prefix", lst is not None,
            "the raw list must start as %s placeholders (None) so that "
            "index == location address" % start_name, where(mod, fn))
